@@ -21,6 +21,48 @@ theorem slice_take (file : List Nat) (n off k : Nat) (h : off + k ≤ (file.take
 theorem take_length_le (file : List Nat) (n : Nat) : (file.take n).length ≤ file.length := by
   rw [List.length_take]; omega
 
+/-- the padding check looks at the same bytes when all of them lie before the cut -/
+theorem padZero_take (file : List Nat) (n off t : Nat) (h : off + (t - off) ≤ n) :
+    padZero (file.take n) off t = padZero file off t := by
+  unfold padZero slice
+  rw [List.drop_take, List.take_take]
+  congr 2
+  omega
+
+/-- a header is delivered only from inside the file -/
+theorem nextHeader_ok_lt (file : List Nat) (fuel off : Nat) (r : Hdr × Nat)
+    (h : nextHeader P file fuel off = .ok r) : off < file.length := by
+  cases fuel with
+  | zero => simp [nextHeader] at h
+  | succ f =>
+    rw [nextHeader_succ] at h
+    cases hx : file[off]? with
+    | none => rw [hx] at h; cases h
+    | some hsz =>
+      apply Classical.byContradiction
+      intro hge
+      rw [List.getElem?_eq_none (by omega)] at hx
+      cases hx
+
+theorem nextFrame_ok_bounds (file : List Nat) (fuel off : Nat) (r : Hdr × List Nat × Nat)
+    (h : nextFrame P file fuel off = .ok r) : off < file.length ∧ r.2.2 ≤ file.length := by
+  unfold nextFrame at h
+  cases hh : nextHeader P file fuel off with
+  | eof => rw [hh] at h; cases h
+  | err => rw [hh] at h; cases h
+  | ok hr =>
+    obtain ⟨hd, off'⟩ := hr
+    rw [hh] at h
+    simp only at h
+    by_cases h1 : off' + hd.size > file.length
+    · rw [if_pos h1] at h; cases h
+    · rw [if_neg h1] at h
+      by_cases h2 : P.crc (slice file off' hd.size) ≠ hd.crc
+      · rw [if_pos h2] at h; cases h
+      · rw [if_neg h2] at h
+        cases h
+        exact ⟨nextHeader_ok_lt file fuel off _ hh, by simp only; omega⟩
+
 /-- a header read from the cut file is the header read from the whole file -/
 theorem nextHeader_take (file : List Nat) (n : Nat) :
     ∀ (fuel off : Nat) (r : Hdr × Nat), nextHeader P (file.take n) fuel off = .ok r →
@@ -41,7 +83,24 @@ theorem nextHeader_take (file : List Nat) (n : Nat) :
       · rw [if_pos h0] at h ⊢
         by_cases ht : trueUp P (off + 1) - (off + 1) > P.H
         · rw [if_pos ht] at h; cases h
-        · rw [if_neg ht] at h ⊢; exact ih _ r h
+        · rw [if_neg ht] at h ⊢
+          cases hp : padZero (file.take n) (off + 1) (trueUp P (off + 1)) with
+          | false => rw [hp] at h; simp only [Bool.not_false, if_true] at h; cases h
+          | true =>
+            rw [hp] at h
+            simp only [Bool.not_true, Bool.false_eq_true, if_false] at h
+            -- the read that follows the padding succeeded, so the whole padding lies before the cut
+            have hlt := nextHeader_ok_lt (file.take n) f _ r h
+            have hoff : off < (file.take n).length := by
+              apply Classical.byContradiction
+              intro hge
+              rw [List.getElem?_eq_none (by omega)] at hx
+              cases hx
+            rw [List.length_take] at hlt hoff
+            rw [padZero_take file n (off + 1) _ (by omega)] at hp
+            rw [hp]
+            simp only [Bool.not_true, Bool.false_eq_true, if_false]
+            exact ih _ r h
       · rw [if_neg h0] at h ⊢
         by_cases h1 : hsz > P.H
         · rw [if_pos h1] at h; cases h
@@ -92,13 +151,26 @@ theorem nextBatch_take (file : List Nat) (n fuel off : Nat) (r : List Nat × Nat
         by_cases ht : trueUp P off' - off' > P.H
         · rw [if_pos ht] at h; cases h
         · rw [if_neg ht] at h ⊢
-          cases hf2 : nextFrame P (file.take n) fuel (trueUp P off') with
-          | eof => rw [hf2] at h; cases h
-          | err => rw [hf2] at h; cases h
-          | ok fr2 =>
-            rw [hf2] at h
-            rw [nextFrame_take file n fuel _ _ hf2]
-            exact h
+          cases hp : padZero (file.take n) off' (trueUp P off') with
+          | false => rw [hp] at h; simp only [Bool.not_false, if_true] at h; cases h
+          | true =>
+            rw [hp] at h
+            simp only [Bool.not_true, Bool.false_eq_true, if_false] at h
+            cases hf2 : nextFrame P (file.take n) fuel (trueUp P off') with
+            | eof => rw [hf2] at h; cases h
+            | err => rw [hf2] at h; cases h
+            | ok fr2 =>
+              rw [hf2] at h
+              -- both frames were read, so the padding between them lies before the cut
+              have hb1 := (nextFrame_ok_bounds (file.take n) fuel off _ hf).2
+              have hb2 := (nextFrame_ok_bounds (file.take n) fuel _ _ hf2).1
+              simp only at hb1
+              rw [List.length_take] at hb1 hb2
+              rw [padZero_take file n off' _ (by omega)] at hp
+              rw [hp]
+              simp only [Bool.not_true, Bool.false_eq_true, if_false]
+              rw [nextFrame_take file n fuel _ _ hf2]
+              exact h
       · rw [if_neg h1] at h; cases h
 
 theorem readSome_succ (file : List Nat) (f off : Nat) :
